@@ -73,6 +73,8 @@ func c18Dirs(tier string, g *rand.Rand) [][]c18Entry {
 		[]c18Entry{{File: "10-foo", Kind: "exec", ConfSpec: str("specific-10-foo"), ConfGen: str("generic-foo")}, {File: "20-foo", Kind: "exec", ConfGen: str("generic-foo")}},
 		[]c18Entry{{File: "10-bar", Kind: "exec", ConfSpec: str("specific-10-bar")}, {File: "20-bar", Kind: "exec"}, {File: "30-bar", Kind: "exec", ConfSpec: str("specific-30-bar")}},
 		[]c18Entry{{File: "00-a", Kind: "exec"}, {File: "99-z", Kind: "exec"}, {File: "notes.txt", Kind: "noexec"}, {File: "1-short", Kind: "noexec"}, {File: "bin", Kind: "dir"}},
+		// indices that are not octal numerals (08, 09) between smaller and larger ones: the order is that of the two digits
+		[]c18Entry{{File: "09-nine", Kind: "exec"}, {File: "05-five", Kind: "exec"}, {File: "08-eight", Kind: "exec"}, {File: "00-zero", Kind: "exec"}, {File: "10-ten", Kind: "exec"}, {File: "07-seven", Kind: "exec"}},
 	)
 	names := []string{"alpha", "alpha", "beta-x", "c", "logger", "stubborn-q", "dropidle-r", "very-long-name-with-many-dashes", "x.y", "UPPER", "exitnow-p", "noreg-p", "syncfail-p", "dielater-p", "cfgfail-p"}
 	for i := 0; i < tierN(tier, 12, 1200); i++ {
